@@ -1,6 +1,6 @@
-// ---- src/crypto/hash.rs and src/crypto/key_pair.rs as ASSUMED contracts over uninterpreted BLAKE2b-256 / Ed25519 ----
-// (the byte layout of the hash pre-images is stated here as the spec; the functions of hash.rs build their input
-//  through immediately-invoked closures and `to_encoded_bytes!`, which Verus cannot ingest)
+// ---- the Hypercore v10 hashing / signing scheme as spec functions over uninterpreted BLAKE2b-256 / Ed25519 ----
+// (the functions of src/crypto/hash.rs are proved against these in unit `hash` (frag/hash.rs); sign / verify of
+//  src/crypto/key_pair.rs are ASSUMED: they only forward to ed25519-dalek)
 pub mod crypto {
 use vstd::prelude::*;
 use crate::{Node, HypercoreError, Signature, SigningKey, VerifyingKey};
@@ -29,8 +29,11 @@ pub open spec fn h_parent(a: Node, b: Node) -> Seq<u8> {
     if a.index <= b.index { blake2b(parent_preimage(a.length, a.hash@, b.length, b.hash@)) } else { blake2b(parent_preimage(b.length, b.hash@, a.length, a.hash@)) }
 }
 pub open spec fn h_tree(roots: Seq<Node>) -> Seq<u8> { blake2b(roots_preimage(roots)) }
-/// TREE namespace ++ hash ++ LE64(length) ++ LE64(fork)
-pub uninterp spec fn tree_namespace() -> Seq<u8>;
+/// TREE namespace (BLAKE2b-256 of the `hypercore` namespace and type 0, lib/caps.js of the JS implementation) ++ hash ++ LE64(length) ++ LE64(fork)
+pub open spec fn tree_namespace() -> Seq<u8> {
+    seq![0x9Fu8, 0xAC, 0x70, 0xB5, 0x0C, 0xA1, 0x4E, 0xFC, 0x4E, 0x91, 0xC8, 0x33, 0xB2, 0x04, 0xE7, 0x5B,
+         0x8B, 0x5A, 0xAD, 0x8B, 0x58, 0x81, 0xBF, 0xC0, 0xAD, 0xB5, 0xEF, 0x38, 0xA3, 0x27, 0x5B, 0x9C]
+}
 pub open spec fn spec_signable(hash: Seq<u8>, length: u64, fork: u64) -> Seq<u8> { tree_namespace() + hash + le_bytes(length, 8) + le_bytes(fork, 8) }
 /// Ed25519 verification predicate and signing function: uninterpreted
 pub uninterp spec fn sig_ok(pk: VerifyingKey, msg: Seq<u8>, sig: Signature) -> bool;
@@ -39,24 +42,6 @@ pub uninterp spec fn spec_sign(sk: SigningKey, msg: Seq<u8>) -> Signature;
 pub broadcast proof fn axiom_sign_verifies(sk: SigningKey, msg: Seq<u8>)
     ensures sig_ok(sk.spec_verifying_key(), msg, #[trigger] spec_sign(sk, msg)) {}
 
-pub struct Hash { pub bytes: Vec<u8> }
-impl Hash {
-    #[verifier::external_body]
-    pub fn data(data: &[u8]) -> (r: Hash) ensures r.bytes@ == h_leaf(data@), r.bytes@.len() == 32 { unimplemented!() }
-    #[verifier::external_body]
-    pub fn parent(left: &Node, right: &Node) -> (r: Hash)
-        requires left.length + right.length <= u64::MAX
-        ensures r.bytes@ == h_parent(*left, *right), r.bytes@.len() == 32 { unimplemented!() }
-    #[verifier::external_body]
-    pub fn tree(roots: &[Node]) -> (r: Hash) ensures r.bytes@ == h_tree(roots@), r.bytes@.len() == 32 { unimplemented!() }
-    #[verifier::external_body]
-    pub fn as_bytes(&self) -> (r: &[u8]) ensures r@ == self.bytes@ { unimplemented!() }
-}
-#[verifier::external_body]
-pub fn signable_tree(hash: &[u8], length: u64, fork: u64) -> (r: Box<[u8]>)
-    requires hash@.len() == 32      // the real function expect()s a 32-byte hash
-    ensures r@ == spec_signable(hash@, length, fork)
-{ unimplemented!() }
 #[verifier::external_body]
 pub fn verify(public: &VerifyingKey, msg: &[u8], sig: Option<&Signature>) -> (r: Result<(), HypercoreError>)
     ensures (r is Ok) == (sig is Some && sig_ok(*public, msg@, *sig->Some_0))
@@ -66,4 +51,4 @@ pub fn sign(signing_key: &SigningKey, msg: &[u8]) -> (r: Signature)
     ensures r == spec_sign(*signing_key, msg@)
 { unimplemented!() }
 } // mod crypto
-pub use crypto::{sign, verify, signable_tree, Hash};
+pub use crypto::{sign, verify};
